@@ -23,12 +23,14 @@ TraceInit ==
 Run == Next /\ UNCHANGED l
 
 SetOf(s) == {s[i] : i \in DOMAIN s}
+Bag(s) == [x \in SetOf(s) |-> Cardinality({i \in DOMAIN s : s[i] = x})]    \* order of addresses is not specified
 NonEmptyAddl(a) == {x \in SetOf(a) : x.ips # <<>>}
 ObsResult ==
   /\ Has /\ Ev.e = "result" /\ pc = "done"
   /\ result.kind = Ev.kind
-  /\ (result.kind = "err" => result.class = Ev.class)
-  /\ (result.kind = "ok" => /\ result.address = Ev.address
+  /\ (result.kind = "err" => \/ result.class = Ev.class
+                              \/ \E t \in {"A", "AAAA"} : Ask(want, t).rcode # 0 /\ ErrOf(Ask(want, t).rcode) = Ev.class)
+  /\ (result.kind = "ok" => /\ Bag(result.address) = Bag(Ev.address)
                             /\ result.https = Ev.https
                             /\ NonEmptyAddl(result.addl) = SetOf(Ev.addl)
                             /\ result.port = Ev.port)
